@@ -1,5 +1,5 @@
 /* frame generators (C03) and dump bounds (C07)
- * gen <kind> <a1> <a2> <a3> <p1> .. <p7> [extras: A:<num>:<hex> | D:<hex>] ... B<buflen>|B*
+ * gen <kind> <a1> <a2> <a3> <p1> .. <p7> [extras: A:<num>:<hex> | X (remove every element) | D:<hex>] ... B<buflen>|B*
  *   B<n>: one dump into an exactly n-byte heap block; B*: every size 0..len+2 */
 #include "h.h"
 
@@ -65,6 +65,11 @@ static int add_extras(struct libwifi_tagged_parameters *tags, int nt, char **t, 
     int r = 0;
     for (int i = from; i < nt - 1; i++) {
         char *o = t[i];
+        if (o[0] == 'X') {            /* strip: remove every element, leaving an object without tagged parameters */
+            int guard = 0;
+            while (tags->length > 0 && guard++ < 100000) { int num = tags->parameters[0]; LIB(libwifi_remove_tag(tags, num)); }
+            continue;
+        }
         if (o[0] != 'A') continue;
         char *c2 = strchr(o + 2, ':'); *c2 = 0;
         size_t n; unsigned char *b = hexbuf(c2 + 1, &n);
